@@ -15,7 +15,7 @@ MOD = __name__
 RULE = ("Hypothesis RuleBasedStateMachine (rules = addfilter, updatefilter, replacefilter, removefilter, enablefilter, "
         "disablefilter, movefilter; names from a pool of 3 plus one never-added name; definitions from a pool of 4; <= 30 steps) "
         "and exhaustive enumeration of all histories up to length 3 (quick) / 4 (thorough), and of all continuations of length 2 / 3 of a set "
-        "that already holds the three names, over the same pools (replacefilter also with the content object of another filter of "
+        "that already holds the three names (freshly added, and after a disable/enable cycle, a disable, an update and a move), over the same pools (replacefilter also with the content object of another filter of "
         "the set, which the two then share; in the machine and the continuations also names that differ from a pool name only by a "
         "surrounding blank or by case) through the same interpreter; oracle: reference ordered-unique-list model compared after every step (names/order, FilterAlreadyExists, "
         "position and enabled flag kept by update/replace, move by one within bounds, unknown names change nothing, enabled flag "
@@ -230,6 +230,9 @@ def populated_worker(arg):
     col = core.Collector()
     ops = all_ops(twins=True)
     prefix0 = [{"op": "add", "name": n, "def": i % len(DEFS)} for i, n in enumerate(NAMES)]
+    # the same set after some life: n1 disabled and enabled again, n2 disabled, n3 updated and moved up
+    prefix1 = prefix0 + [{"op": "disable", "name": NAMES[0]}, {"op": "enable", "name": NAMES[0]}, {"op": "disable", "name": NAMES[1]},
+                         {"op": "update", "name": NAMES[2], "newname": NAMES[2], "def": 0}, {"op": "move", "name": NAMES[2], "dir": "up"}]
 
     def rec(prefix, depth):
         record(col, prefix, "populated")
@@ -239,6 +242,7 @@ def populated_worker(arg):
             rec(prefix + [o], depth + 1)
 
     rec(prefix0 + [ops[first]], 1)
+    rec(prefix1 + [ops[first]], 1)
     return col
 
 
